@@ -35,6 +35,15 @@ const GX: [u8; 32] = [
     0xf4, 0xa1, 0x39, 0x45, 0xd8, 0x98, 0xc2, 0x96,
 ];
 
+/// P-256 / SHA-256 suite (OPRF elements go through voprf's NIST element decoder)
+pub struct P256Suite;
+impl opaque_ke::CipherSuite for P256Suite {
+    type OprfCs = NistP256;
+    type KeGroup = NistP256;
+    type KeyExchange = opaque_ke::key_exchange::tripledh::TripleDh;
+    type Ksf = opaque_ke::ksf::Identity;
+}
+
 fn pk_with_tag(tag: u8) -> [u8; 33] {
     let mut b = [0u8; 33];
     b[0] = tag;
@@ -58,6 +67,40 @@ harnesses! {
             }
             Err(_) => { check!(!valid, "every scalar in 1..n-1 is accepted"); cover!(true, "err"); }
         }
+    }
+
+    /// G5: a P-256 private key of any length other than 32 is refused (the underlying `elliptic_curve::SecretKey::from_slice`
+    /// zero-pads 24..31-byte inputs: such a key would decode from an encoding it does not re-encode to). Content: 0x01 in
+    /// every byte (a valid scalar at every length) with a symbolic last byte; the lengths are what is explored.
+    fn g5_p256_sk_lengths [unwind = 70] {
+        let mut b = [1u8; 40];
+        let last = any_u8();
+        let mut len = 0;
+        while len <= 40 {
+            if len != 32 {
+                if len > 0 { b[len - 1] = last; }
+                check!(NistP256::deserialize_sk(&b[..len]).is_err(), "P-256 private key of a wrong length accepted (decodes from an encoding it does not re-encode to)");
+                if len > 0 { b[len - 1] = 1; }
+            }
+            len += 1;
+        }
+        cover!(true, "reached");
+    }
+
+    /// G5: the same for P-384 (48 bytes) through the same generic impl
+    fn g5_p384_sk_lengths [unwind = 70] {
+        let mut b = [1u8; 56];
+        let last = any_u8();
+        let mut len = 0;
+        while len <= 56 {
+            if len != 48 {
+                if len > 0 { b[len - 1] = last; }
+                check!(p384::NistP384::deserialize_sk(&b[..len]).is_err(), "P-384 private key of a wrong length accepted (decodes from an encoding it does not re-encode to)");
+                if len > 0 { b[len - 1] = 1; }
+            }
+            len += 1;
+        }
+        cover!(true, "reached");
     }
 
     /// G6: every tag byte other than 0,2,3,4,5 is refused whatever follows (33-byte input, symbolic x)
@@ -94,5 +137,38 @@ harnesses! {
         check!(NistP256::deserialize_pk(&pk_with_tag(4)).is_err(), "uncompressed tag accepted for a 33-byte public key");
         check!(NistP256::deserialize_pk(&pk_with_tag(5)).is_err(), "SEC1 compact tag accepted: second encoding of a public key");
         cover!(true, "reached");
+    }
+    /// G6 (C10, known finding F4): an OPRF element with the SEC1 compact tag 0x05 in a RegistrationRequest (voprf's NIST element
+    /// decoder = `PublicKey::from_sec1_bytes`): accepted and re-encoded with tag 0x02/0x03 — a second encoding of one message
+    fn g6_p256_oprf_elem_compact_tag [unwind = 70] {
+        let b = pk_with_tag(5);
+        match opaque_ke::RegistrationRequest::<P256Suite>::deserialize(&b) {
+            Ok(m) => {
+                check!(eq_bytes(&m.serialize(), &b), "OPRF element decodes from an encoding it does not re-encode to (SEC1 compact tag 0x05)");
+                core::mem::forget(m);
+            }
+            Err(_) => {}
+        }
+        cover!(true, "reached");
+    }
+
+    /// G6 (C10/C11): OPRF element tags 0 (identity) and 4 (uncompressed, 33 bytes) are refused; 2 / 3 decode and re-encode to the input
+    fn g6_p256_oprf_elem_other_tags [unwind = 70] {
+        let tags = [0u8, 2, 3, 4];
+        let mut i = 0;
+        while i < 4 {
+            let t = tags[i];
+            let b = pk_with_tag(t);
+            match opaque_ke::RegistrationRequest::<P256Suite>::deserialize(&b) {
+                Ok(m) => {
+                    check!(t == 2 || t == 3, "OPRF element with the identity / uncompressed tag accepted in a 33-byte message");
+                    check!(eq_bytes(&m.serialize(), &b), "OPRF element decodes from an encoding it does not re-encode to");
+                    cover!(true, "ok");
+                    core::mem::forget(m);
+                }
+                Err(_) => { check!(t != 2 && t != 3, "a valid compressed OPRF element is accepted"); cover!(true, "err"); }
+            }
+            i += 1;
+        }
     }
 }
